@@ -11,8 +11,10 @@ PID = 'C09'
 TOL = 2e-5
 
 
-def one_fit(rng, fam, kind, ns, nu, rho, max_iter, trunc, solver_iters=None):
+def one_fit(rng, fam, kind, ns, nu, rho, max_iter, trunc, solver_iters=None, unit=None):
     X, A0, B0 = lmi.linear_data(rng, ns, nu, kind=kind)
+    if unit is not None:
+        X = np.array(X, copy=True); X[:, ns] *= unit          # the last state recorded in other units
     sp = dict(lmi.SOLVER)
     if solver_iters is not None:
         sp['max_iterations'] = solver_iters           # the solver gives up early: status 'unknown', meaningless iterate
@@ -90,6 +92,18 @@ def run(res, tier):
         dist['dmdc_truncation_sweep'] = dist.get('dmdc_truncation_sweep', 0) + 1
         if info:
             bad.append(dict(info, **desc, X=X.tolist()))
+    # one state recorded in very different units (a similarity transformation of the generating system: the bound must
+    # hold for the returned matrix whatever balancing happens inside)
+    usweep = [(f, u, rho) for f in ('edmd', 'dmdc') for u in (1e-3, 1e-4) for rho in (0.9, 1.0)]
+    for j, (fam, unit, rho) in enumerate(usweep if tier == 'quick' else usweep * 4):
+        try:
+            info, desc, X = one_fit(rng, fam, 'unstable', 2, 1, rho, 6, None, unit=unit)
+        except Exception:  # noqa
+            dist['fit_error'] = dist.get('fit_error', 0) + 1
+            continue
+        dist['state_units_sweep'] = dist.get('state_units_sweep', 0) + 1
+        if info:
+            bad.append(dict(info, **desc, state_unit=unit, X=X.tolist()))
     # history: the same estimator object refitted after set_params must behave as a fresh one (log included)
     for h in range(3 if tier == 'quick' else 20):
         cls = [L.LmiEdmdSpectralRadiusConstr, L.LmiDmdcSpectralRadiusConstr][h % 2]
